@@ -2461,7 +2461,8 @@ class BinaryQuadraticModel(QuadraticViewsMixin):
                     quadratic.col_indices[swaps], quadratic.row_indices[swaps]
 
             # sort lexigraphically
-            order = np.lexsort((quadratic.row_indices, quadratic.col_indices))
+            # (np.lexsort takes the primary key LAST: by row, then by column, as the array back-ends do)
+            order = np.lexsort((quadratic.col_indices, quadratic.row_indices))
             if not (order == range(len(order))).all():
                 quadratic = QuadraticVectors(
                     quadratic.row_indices[order],
